@@ -32,6 +32,14 @@ Theorem C13_actions_see_innermost :
 Proof. exact eval_blocks. Qed.
 Print Assumptions C13_actions_see_innermost.
 
+Theorem C13_actions_see_innermost_at_apply :
+  forall G C f d r c o c' pre fam r' b e post,
+  eval G C f d r c = Res o c' (pre ++ EApply fam r' b e :: post) ->
+  exists st v, run G C None [FRoot (dv_of d)] pre = Some st /\ own C st = Some (r', v) /\
+               blocks [] pre = Some (fbs st) /\ blocks (fbs st) post = Some [].
+Proof. exact eval_apply_blocks. Qed.
+Print Assumptions C13_actions_see_innermost_at_apply.
+
 (* Frame property of the switches, trace level: every invocation entry in an engine log carries exactly the apply mode
    and control family that the lexical-scope function computes from the frames open at that point of the log ... *)
 Theorem C13_switch_scope :
